@@ -648,3 +648,40 @@ Theorem C05_source_summarize_spread : forall b col dcol (bivar : list Q -> Q -> 
   (forall a i, qsq (bivar a i) == ref_bivar_sq a i) ->
   r_spread_sq (consensus (b, col, dcol)) == qsq (snd (Gen.FnRefSummarize.fn_summarize col dcol ref_biloc bivar)).
 Proof. exact Proofs.FnRefSummarize.fn_summarize_spread. Qed.
+
+From CNV Require Proofs.FnRefBlock Proofs.FnRefBias.
+
+(* load_sample_block's matrices, column by column: for every bin, the generated initial lists (flat pseudo-sample first,
+   then the first file) with the generated loop iteration folded over the remaining files ARE the columns of load_block's
+   depth and log2 matrices *)
+Theorem C05_source_block_columns : forall exp2 hap build sexes skip_low files first rest bins logr depths lg i,
+  sort_samples files = first :: rest ->
+  load_block hap build sexes skip_low files = BlkOk bins logr depths ->
+  bins <> [] ->
+  let rows := sex_rows hap build (s_bins first) in
+  let rowL := fun s => nth i (sample_logr build sexes skip_low rows s) 0 in
+  let rowD := fun s => nth i (s_depth s) 0 in
+  fold_left (Proofs.FnRefBlock.block_iter exp2 rowD rowL lg) rest
+            (Gen.FnRefBlock.fn_block_init exp2 true (rowD first) lg (nth i (expect_flat hap build (s_bins first)) 0)
+                                          (rowL first)) =
+  (column depths i, column logr i).
+Proof. exact Proofs.FnRefBlock.fn_load_block_columns. Qed.
+
+(* bias_correct_logr's dispatch: with the three corrections off (the model's case) the table whose log2 is returned is the
+   centred, sex-shifted table itself ... *)
+Theorem C05_source_bias_off : forall id n_cov n_rows has_gc has_rmask by_gc by_rmask by_edge,
+  Gen.FnRefBias.fn_bias_table id n_cov n_rows has_gc has_rmask false false false by_gc by_rmask by_edge = id.
+Proof. exact Proofs.FnRefBias.fn_bias_table_off. Qed.
+
+(* ... as it is for a sample with at most half of its bins covered, whatever the flags; otherwise gc, rmask, edge run in
+   that order, each on the previous result *)
+Theorem C05_source_bias_mostly_low : forall id n_cov n_rows has_gc has_rmask fg fr fe by_gc by_rmask by_edge,
+  (n_cov <= n_rows / 2)%Z ->
+  Gen.FnRefBias.fn_bias_table id n_cov n_rows has_gc has_rmask fg fr fe by_gc by_rmask by_edge = id.
+Proof. exact Proofs.FnRefBias.fn_bias_table_mostly_low. Qed.
+
+Theorem C05_source_bias_corrections : forall id n_cov n_rows has_gc has_rmask fg fr fe by_gc by_rmask by_edge,
+  (n_rows / 2 < n_cov)%Z ->
+  Gen.FnRefBias.fn_bias_table id n_cov n_rows has_gc has_rmask fg fr fe by_gc by_rmask by_edge =
+  if fe then by_edge else if has_rmask && fr then by_rmask else if has_gc && fg then by_gc else id.
+Proof. exact Proofs.FnRefBias.fn_bias_table_corrections. Qed.
